@@ -60,10 +60,45 @@ type Run struct {
 	Exhaustive  bool
 	Start       time.Time
 	seen        map[string]int
+	advisory    map[string][]string // shape rule -> the exact rules that decide the same clause
 }
 
 func NewRun(prop, tier string) *Run {
 	return &Run{Prop: prop, Tier: tier, Analysed: map[string][]string{}, RuleDocs: map[string]string{}, Start: time.Now(), seen: map[string]int{}}
+}
+
+// Advisory marks a shape rule whose clause is decided exactly by other rules of the same run. Where those rules
+// decided everything (no undecided obligation), an "unrecognised shape" outcome of the advisory rule carries no
+// information and is turned into a note; its refutations still count. The advisory rule is exempt from the minimum
+// instance count in that case (a rewritten but correct function has fewer recognisable shapes).
+func (r *Run) Advisory(rule string, backedBy ...string) {
+	if r.advisory == nil {
+		r.advisory = map[string][]string{}
+	}
+	r.advisory[rule] = backedBy
+}
+
+// backed reports whether every backing rule of an advisory rule has obligations and none undecided.
+func (r *Run) backed(rule string) bool {
+	bs, ok := r.advisory[rule]
+	if !ok || len(bs) == 0 {
+		return false
+	}
+	for _, b := range bs {
+		n := 0
+		for _, o := range r.Obls {
+			if o.Rule == r.Prop+"-"+b {
+				n++
+				if o.Status == Undecided {
+					return false
+				}
+			}
+		}
+		if n == 0 {
+			return false
+		}
+	}
+	return true
 }
 
 // Rule registers the one-line description of a rule.
@@ -200,6 +235,27 @@ func (r *Run) Finish(verifDir string, findings []Finding, expect map[string]int,
 			known[f.Key] = f
 		}
 	}
+	// advisory shape rules: drop their undecided outcomes where the exact rules decided the clause
+	exempt := map[string]bool{}
+	for rule := range r.advisory {
+		if !r.backed(rule) {
+			continue
+		}
+		exempt[r.Prop+"-"+rule] = true
+		var keep []*Obligation
+		dropped := 0
+		for _, o := range r.Obls {
+			if o.Rule == r.Prop+"-"+rule && o.Status == Undecided {
+				dropped++
+				continue
+			}
+			keep = append(keep, o)
+		}
+		if dropped > 0 {
+			r.Obls = keep
+			r.Note("advisory rule %s: %d unrecognised shapes not counted (the clause is decided by %s)", rule, dropped, strings.Join(r.advisory[rule], ", "))
+		}
+	}
 	sort.SliceStable(r.Obls, func(i, j int) bool { return r.Obls[i].Key < r.Obls[j].Key })
 	var viol, und, kn []*Obligation
 	usedKnown := map[string]bool{}
@@ -234,6 +290,9 @@ func (r *Run) Finish(verifDir string, findings []Finding, expect map[string]int,
 	var vac []string
 	for rule, min := range expect {
 		if !strings.HasPrefix(rule, r.Prop) {
+			continue
+		}
+		if exempt[rule] {
 			continue
 		}
 		if n := r.Count(rule); n < min {
